@@ -48,6 +48,10 @@ class DiskReader:
             for sizes in ([5], [0, 2299, 300], [4603, 1, 2304], [2295, 2296, 2297, 2298], [7000, 0, 0, 11]):
                 yield {"sizes": sizes, "order": "default"}
                 yield {"sizes": sizes, "order": "evenodd"}
+            # images with deleted directory entries ($00) in front of / between active ones, and files beyond the first sector
+            yield {"sizes": [10, 20, 30], "order": "default", "delete": [0]}
+            yield {"sizes": [10, 20, 30, 40], "order": "default", "delete": [1, 2]}
+            yield {"sizes": [3] * 11, "order": "default", "delete": [6, 7, 9]}
             return
         if cell["fn"] == "cfl":
             for chain, s, b in (([5], 1, 0), ([5, 6], 3, 17), ([67, 0, 33], 9, 255), ([1, 2, 3, 4, 5, 6, 7, 8], 2, 1)):
@@ -137,6 +141,14 @@ class DiskReader:
             ft, dt = kinds[j % 3]
             want.append(("F%d" % j, "BIN", ft, dt, 0x1000 + j, 0x2000 + j, [(5 * t + j) % 256 for t in range(L)]))
         img = db.build(want, order=order) if order else db.build(want)
+        for slot in env.holes.get("delete", []):
+            # delete the file in that slot the way Disk BASIC does: first name byte $00, its granules freed
+            e = [x for x in db.entries(img) if x["slot"] == slot][0]
+            ch, _ = db.chain(img, e["first"])
+            for g_ in ch:
+                img[FAT + g_] = 0xFF
+            img[db.DIR_OFFSET + 32 * slot] = 0x00
+        want = [w for j, w in enumerate(want) if j not in env.holes.get("delete", [])]
         d = F.new(DSK, "DiskFile", buffer=list(img))
         key = KEY + "list_files"
         try:
